@@ -55,6 +55,7 @@ func saveDebugArtifactsForPkg(lpkg *listedPackage, kind string, artifacts cached
 	if err != nil {
 		return err
 	}
+	verifEvent("debugdir-put", "pkg", lpkg.ImportPath, "kind", kind, "key", debugArtifactsCacheID(lpkg.GarbleActionID, kind))
 	return fsCache.PutBytes(debugArtifactsCacheID(lpkg.GarbleActionID, kind), data)
 }
 
@@ -79,6 +80,7 @@ func restoreDebugArtifactsForPkg(fsCache *cache.Cache, lpkg *listedPackage, kind
 	if err != nil || !ok {
 		return err
 	}
+	verifEvent("debugdir-restore", "pkg", lpkg.ImportPath, "kind", kind, "sources", len(artifacts.SourceFiles), "garbled", len(artifacts.GarbledFiles))
 	for relPath, content := range artifacts.SourceFiles {
 		if err := writeDebugDirFile(debugDirSourceSubdir, lpkg, relPath, content); err != nil {
 			return err
